@@ -22,17 +22,32 @@ mod verif_c08t {
         let line = Line::new(Point::new(0, 0), Point::new(800, 0));
         let it = ParallelsIterator::new(&line, 30, StrokeOffset::None);
     }
-    /// ... it is overflow free when (2 t)^2 * |delta|^2 < 2^31, e.g. stroke width <= 16 and |dx|,|dy| <= 1024
-    //@harness prop=C08 kind=lemma tier=thorough class=P bound="stroke width <= 16 at |dx|, |dy| <= 1024" timeout=3000 fns=src/primitives/line/thick_points.rs::ParallelsIterator::new
+    /// ... and is overflow free on the part of the display-scale domain where (2 t)^2 * |delta|^2 < 2^31:
+    /// stroke width <= 11 for every line with 0 <= dx, dy <= 1023 (first quadrant: the deltas are built from
+    /// masked bytes so that the multipliers see constant zero bits; the products do not depend on the signs)
+    //@harness prop=C08,C17 kind=lemma tier=quick class=P bound="stroke width <= 11, 0 <= dx, dy <= 1023, start within +-1024" timeout=900 kani="--no-assertion-reach-checks" fns=src/primitives/line/thick_points.rs::ParallelsIterator::new
+    #[kani::proof]
+    #[kani::unwind(4)]
+    fn c08_thick_line_setup_first_quadrant() {
+        let start = any_point(1024);
+        let d = Point::new((kani::any::<u16>() & 1023) as i32, (kani::any::<u16>() & 1023) as i32);
+        let line = Line::new(start, start + d);
+        let t = (kani::any::<u8>() & 15) as i32;
+        kani::assume(t <= 11);
+        let it = ParallelsIterator::new(&line, t, StrokeOffset::None);
+        kani::cover!(t == 11 && d.x == 1023 && d.y == 1023);
+    }
+    /// ... it is overflow free when (2 t)^2 * |delta|^2 < 2^31, e.g. stroke width <= 15 and |dx|,|dy| <= 1024 (all quadrants; did not finish in 15 min)
+    //@harness prop=C08 kind=lemma tier=thorough class=P bound="stroke width <= 15 at |dx|, |dy| <= 1024" timeout=3000 fns=src/primitives/line/thick_points.rs::ParallelsIterator::new
     #[kani::proof]
     fn c08_thick_line_threshold_safe_domain() {
         let start = any_point(1024);
         let d = any_point(1024);
         let line = Line::new(start, start + d);
         let t: i32 = kani::any();
-        kani::assume(t >= 0 && t <= 16);
+        kani::assume(t >= 0 && t <= 15);
         let it = ParallelsIterator::new(&line, t, StrokeOffset::None);
-        kani::cover!(t == 16 && d.x == 1024 && d.y == -1024);
+        kani::cover!(t == 15 && d.x == 1024 && d.y == -1024);
     }
 }
 //@end
@@ -138,6 +153,72 @@ mod verif_c08 {
         let _ = rr.offset(128);
         let _ = rr.offset(-128);
         kani::cover!(true);
+    }
+}
+//@end
+
+//@append src/primitives/rectangle/styled.rs
+#[cfg(kani)]
+#[allow(missing_docs, trivial_casts, trivial_numeric_casts, unused_qualifications, dead_code, unused)]
+mod verif_c08d {
+    use super::*;
+    use crate::{
+        pixelcolor::Gray8,
+        primitives::{Primitive, StrokeAlignment},
+        verif_probe::{any_point, everything, sp, ProbeNative, ProbeState},
+        Drawable,
+    };
+
+    /// Dotted rectangle strokes (the only shape that implements StrokeStyle::Dotted) are total on small and
+    /// degenerate rectangles, including strokes wider than the shape and 1 pixel wide / high stroke areas
+    /// (no division by zero, no overflow), and paint nothing outside the styled bounding box (C02).
+    //@harness prop=C08,C02 kind=bounded tier=thorough class=P bound="rectangle 0..=3 x 0..=3 at (0,0), stroke width 0..=2 (square dots), three alignments (the dot positions are float computations; ran out of memory at 14 GB after 6 min)" timeout=3000 kani="--no-assertion-reach-checks" fns=src/primitives/rectangle/styled.rs::Rectangle::draw_styled;src/primitives/rectangle/styled.rs::draw_dotted_rectangle_border_in_clockwise_order;src/primitives/rectangle/styled.rs::dot_positions_in_clockwise_order
+    #[kani::proof]
+    #[kani::unwind(6)]
+    fn c08_dotted_rectangle_total() {
+        let r = Rectangle::new(Point::new(0, 0), Size::new((kani::any::<u8>() & 3) as u32, (kani::any::<u8>() & 3) as u32));
+        let mut style = PrimitiveStyle::<Gray8>::new();
+        style.stroke_color = Some(Gray8::new(200));
+        style.fill_color = if kani::any() { Some(Gray8::new(50)) } else { None };
+        style.stroke_width = (kani::any::<u8>() & 3) as u32;
+        kani::assume(style.stroke_width <= 2);
+        style.stroke_alignment = match kani::any::<u8>() % 3 { 0 => StrokeAlignment::Inside, 1 => StrokeAlignment::Center, _ => StrokeAlignment::Outside };
+        style.stroke_style = StrokeStyle::Dotted;
+        let styled = r.into_styled(style);
+        let q = any_point(2048);
+        let mut t = ProbeNative::<Gray8>(ProbeState::new(q, everything(), styled.bounding_box()));
+        let res = styled.draw(&mut t);
+        assert!(res.is_ok());
+        assert!(!t.0.escaped);
+        kani::cover!(t.0.last == Some(Gray8::new(200)));
+        kani::cover!(style.stroke_width == 2 && r.size.width == 1);
+    }
+
+    /// Degenerate dotted strokes: a stroke area that is one pixel (or less) wide or high has no room for a dot;
+    /// draw() then paints only the fill, returns Ok and does not reach the dot spacing arithmetic (which would
+    /// divide by the zero dot size). All positions and the other dimension up to 1024, stroke widths 1..=128.
+    //@harness prop=C08,C02 kind=lemma tier=quick class=P bound="stroke area width or height <= 1" timeout=900 kani="--no-assertion-reach-checks" fns=src/primitives/rectangle/styled.rs::Rectangle::draw_styled
+    #[kani::proof]
+    #[kani::unwind(3)]
+    fn c08_dotted_rectangle_thin_is_total() {
+        let thin: u32 = if kani::any() { 1 } else { 0 };
+        let other = (kani::any::<u16>() & 1023) as u32;
+        let size = if kani::any() { Size::new(thin, other) } else { Size::new(other, thin) };
+        let r = Rectangle::new(any_point(1024), size);
+        let mut style = PrimitiveStyle::<Gray8>::new();
+        style.stroke_color = Some(Gray8::new(200));
+        style.fill_color = if kani::any() { Some(Gray8::new(50)) } else { None };
+        style.stroke_width = (kani::any::<u8>() & 127) as u32 + 1;
+        style.stroke_alignment = StrokeAlignment::Inside;
+        style.stroke_style = StrokeStyle::Dotted;
+        let styled = r.into_styled(style);
+        let q = any_point(4096);
+        let mut t = ProbeNative::<Gray8>(ProbeState::new(q, everything(), styled.bounding_box()));
+        let res = styled.draw(&mut t);
+        assert!(res.is_ok());
+        assert!(!t.0.escaped);
+        assert!(t.0.last == if sp::contains(&styled.fill_area(), q) { style.fill_color } else { None });
+        kani::cover!(thin == 1 && other == 10);
     }
 }
 //@end
